@@ -72,6 +72,8 @@ def obligations(tier):
     for part in ("0,0", "0,1", "1,0", "1,1"):
         obs.append(Ob("C03.flags2", F, "flags2", 400, part=part, what=w + " (muted still scores; unscored / suppressed do not)"))
     obs.append(Ob("C03.percent_forms", F, "percent_forms", 120, what="fractional percents: n copies of +2.5% / 12.5% / -0.5% / +33% / +0.25 / +100% sum exactly (N% == N/100)"))
+    obs.append(Ob("C03.numeric_magnitudes", F, "numeric_magnitudes", 200, what="numeric scores of any magnitude (1e-05 ... 1e16, rendered by Python in exponent notation) are summed at their value"))
+    obs.append(Ob("C03.else_scores", F, "else_scores", 200, what="else_message changes what is shown, not what is scored (valence / triggered / else_message / muted / unscored symbolic)"))
     obs.append(Ob("C03.label_suppress", F, "label_suppress", 300, what="suppression by label (label-only and category+label, mixed-case labels): exactly the feedback carrying that label stops scoring"))
     obs.append(Ob("C03.score_reach", F, "score_reach", 60, expect="refute", what="twin: untriggered negative awards next to a triggered one"))
     if tier == "thorough":
